@@ -158,10 +158,10 @@ func isOptionalSrcMetadataWellFormed(metadata string) bool {
 type URLSet struct {
 	// We declare a URLSet not as a string but as a struct wrapping a string
 	// to prevent construction of URL values through string conversion.
-	str string
+	urlSet string
 }
 
 // String returns the string content of a URLSet
 func (s URLSet) String() string {
-	return s.str
+	return s.urlSet
 }
